@@ -34,12 +34,25 @@ def _compile(src, out, defs=(), extra=()):
         raise HarnessError('C build failed: %s\n%s' % (' '.join(cmd), p.stderr[-2000:]))
     os.replace(tmp, out)
 
+def _prune(keep, limit=6):
+    # keep disk use bounded: drop the oldest build directories
+    try:
+        dirs = [os.path.join(BUILD, x) for x in os.listdir(BUILD)]
+        dirs = sorted((x for x in dirs if os.path.isdir(x) and x != keep), key=os.path.getmtime)
+        import shutil
+        for x in dirs[:-limit] if len(dirs) > limit else []:
+            shutil.rmtree(x, True)
+    except OSError:
+        pass
+
+
 def build_c(sanitize=False):
     src = os.path.join(REPO, 'c', 'csimulator.c')
     with open(src, 'rb') as f:
         digest = hashlib.sha256(f.read()).hexdigest()[:20]
     d = os.path.join(BUILD, digest + ('-san' if sanitize else ''))
     os.makedirs(d, exist_ok=True)
+    _prune(d)
     extra = ('-fsanitize=undefined,bounds', '-fno-sanitize-recover=all', '-g') if sanitize else ()
     paths = {}
     for name, defs in (('csimulator', ()), ('ccmiosimulator', ('CONTENTION',))):
